@@ -557,6 +557,7 @@ func c05Run(c *engine.Ctx) {
 	}
 	universe.Scale(named)
 	universe.IRIPresentations(named)
+	moreFamilies(universe.JSON, named)
 	for i := range universe.Structs {
 		universe.GenericNames(&universe.Structs[i], universe.JSON, named)
 	}
